@@ -262,7 +262,11 @@ def check_merge(ctx):
         b = [x for x in loop.body if not (isinstance(x, ast.Expr) and isinstance(x.value, ast.Constant))]
         return b[0] if b and isinstance(b[0], ast.If) else None
 
-    outer = [s for s in fv.statements() if isinstance(s, ast.For) and ("periodic" in U(s.iter) or (_first_test(s) is not None and "periodic" in U(_first_test(s).test)))]
+    def _it(loop):
+        """the iterable of a loop with hoisted temporaries resolved (`periodic_axes = np.flatnonzero(grid.periodic)`)"""
+        return U(fv.expand(loop.iter, loop, stop=("grid", "mask")))
+
+    outer = [s for s in fv.statements() if isinstance(s, ast.For) and ("periodic" in _it(s) or (_first_test(s) is not None and "periodic" in U(_first_test(s).test)))]
     outer = [s for s in outer if not any(s is not o and any(x is s for x in ast.walk(o)) for o in outer)]
     if len(outer) != 1:
         ctx.undecided("MERGE", site, fi, "loop over the periodic axes not found")
@@ -270,7 +274,7 @@ def check_merge(ctx):
     lp = outer[0]
     axv = U(lp.target)
     # which axes does the loop process?  (truth table over one axis being periodic or not, whatever the selection is spelled like)
-    it_txt = U(lp.iter)
+    it_txt = _it(lp)
     verdict, why = None, ""
     if it_txt in ("np.flatnonzero(grid.periodic)", "np.nonzero(grid.periodic)[0]", "np.where(grid.periodic)[0]", "np.flatnonzero(grid.periodic).tolist()"):
         verdict = True
@@ -320,6 +324,10 @@ def check_merge(ctx):
                 on_ax = ie.body if isinstance(cpt[1], ast.Eq) else ie.orelse
                 if isinstance(on_ax, ast.List) and len(on_ax.elts) == 1 and U(on_ax.elts[0]) in ("0", "-1"):
                     side[tgt.id] = "low" if U(on_ax.elts[0]) == "0" else "high"
+        # copy-and-replace form: L = list(ALL); L[ax] = [0]  (ALL holds the full index range of every axis)
+        if isinstance(c, ast.Assign) and len(c.targets) == 1 and isinstance(c.targets[0], ast.Subscript) and isinstance(c.targets[0].value, ast.Name) and U(c.targets[0].slice) == axv \
+                and isinstance(c.value, ast.List) and len(c.value.elts) == 1 and U(c.value.elts[0]) in ("0", "-1"):
+            side[c.targets[0].value.id] = "low" if U(c.value.elts[0]) == "0" else "high"
     zl = []
     for s in ast.walk(lp):
         if isinstance(s, ast.For):
@@ -394,7 +402,7 @@ def check_merge(ctx):
         inner = si.enclosing(s, (ast.For,))
         if inner is None or inner[0] is lp or not isinstance(inner[0].target, ast.Name) or inner[0].target.id != av:
             return None
-        if U(inner[0].iter) not in ("np.flatnonzero(grid.periodic)", "np.nonzero(grid.periodic)[0]", "np.where(grid.periodic)[0]"):
+        if _it(inner[0]) not in ("np.flatnonzero(grid.periodic)", "np.nonzero(grid.periodic)[0]", "np.where(grid.periodic)[0]"):
             return None
         g = canon_guards(si, s, within=inner[0])
         if g != canon_want((f"{av} == {axv}", False)) and g != canon_want((f"{axv} == {av}", False)):
@@ -481,7 +489,9 @@ def check_merge(ctx):
     import re as _re
 
     ranges = []
-    for n in ast.walk(lp):
+    # (the per-axis index ranges may be built once before the loop over the periodic axes and copied inside it)
+    scope = fi.node
+    for n in ast.walk(scope):
         if isinstance(n, ast.Call) and dotted(n.func).split(".")[-1] in ("arange", "range") and len(n.args) == 1:
             mm = _re.fullmatch(r"grid\.shape\[(\w+)\]", U(n.args[0]))
             if mm:
@@ -491,7 +501,7 @@ def check_merge(ctx):
     for x in fv.statements():
         if isinstance(x, ast.Assign) and isinstance(x.targets[0], ast.Name) and U(x.value).startswith("range("):
             axis_iter[x.targets[0].id] = x.value
-    for n in ast.walk(lp):
+    for n in ast.walk(scope):
         tgt = it = None
         if isinstance(n, ast.For) and n is not lp:
             tgt, it = n.target, n.iter
@@ -503,7 +513,7 @@ def check_merge(ctx):
         ctx.undecided("MERGE", site + ":boundary", (fi, lp), "enumeration of the boundary points not recognised")
     else:
         badr = [(n, k) for n, k in ranges if k not in axis_vars]
-        ctx.decide(not badr and len(ranges) >= 2, "MERGE", site + ":boundary", (fi, (badr or ranges)[0][0]),
+        ctx.decide(not badr and len(ranges) >= 1 and len(side) >= 2, "MERGE", site + ":boundary", (fi, (badr or ranges)[0][0]),
                    "the two boundary faces are enumerated over the full index range of every transverse axis (its own length)",
                    f"`{U(badr[0][0]) if badr else ''}` enumerates a transverse axis with the length of axis `{badr[0][1] if badr else ''}`: on grids whose axes have different "
                    "lengths parts of the periodic boundary are never examined (clusters touching there are not merged and are reported twice) or the index runs out of bounds")
